@@ -23,6 +23,9 @@ C16 line-protocol driver.
                                  servers' listen / listen_protocols / sites.  <sites> = site;site;…  site = `.` (no
                                  bind) | bind,bind,…  bind = addr+addr/prot+prot (`-` = no protocols block)
                                                                             → `L=a,b P=<none|h1+h2,-> B=0,1|…` one per server
+  sopts <sites> <opts>           sites on port 8080+2i, listening on `:port` (1) or, through `bind 127.0.0.1 127.0.0.2`, on two addresses (2) and `servers` option blocks
+                                 <opts> = `.` | a/n/d;…   a = `*` (no address) | i.k (port k of site i)   n = `-` | name
+                                 d = `-` | idle seconds; through the whole adapter       → `name=:p+:q:idle|…` (by name) | `rej`
   rename <n> <opts>              n sites on ports 8080+i and `servers :<port> { name … }` options (i:name,…): repeated
                                  adaptation and "no server lost", oracle only                 → `oracle-only`
   perm <text> <seed>             \
@@ -40,6 +43,7 @@ import CaddyModel.C16.History
 import CaddyModel.C16.Args
 import CaddyModel.C16.ParseGlue
 import CaddyModel.C16.BindGlue
+import CaddyModel.C16.ServerOpts
 
 namespace CaddyModel.C16
 
@@ -212,7 +216,63 @@ def showLP : Option (List (Option (List String))) → String
 def showBServer (b : BServer) : String :=
   "L=" ++ ",".intercalate b.listen ++ " P=" ++ showLP b.listenProtocols ++ " B=" ++ ",".intercalate (b.blocks.map toString)
 
+/-! `sopts` -/
+
+/-- the listen addresses of the sites, in file order -/
+def parseSitesListen (s : String) : Option (List (List String)) :=
+  ((s.splitOn ",").zip (List.range (s.splitOn ",").length)).mapM fun (t, i) =>
+    if t == "1" then some [":" ++ toString (8080 + 2 * i)]
+    else if t == "2" then some ["127.0.0.1:" ++ toString (8080 + 2 * i), "127.0.0.2:" ++ toString (8080 + 2 * i)]
+    else none
+
+/-- default names: pairings are numbered in the order `consolidateAddrMappings` meets them while it
+walks the sorted listener addresses (`BindGlue.consolidate`), i.e. by smallest address -/
+def defaultName (all : List (List String)) (l : List String) : String :=
+  "srv" ++ toString ((all.filter fun o => decide (o.headD "" < l.headD "")).length)
+
+def parseSitesPorts (s : String) : Option (List Srv) :=
+  (parseSitesListen s).map fun ls => ls.map fun l => ⟨defaultName ls l, l, none⟩
+
+def parseSrvOpt (servers : List Srv) (s : String) : Option SrvOpt :=
+  match s.splitOn "/" with
+  | [a, n, d] =>
+    let addr : Option String :=
+      if a == "*" then some "" else
+      match a.splitOn "." with
+      | [i, k] =>
+        match canonNat i, canonNat k with
+        | some i', some k' => (servers[i']?).bind fun sv => sv.listen[k']?
+        | _, _ => none
+      | _ => none
+    let name : Option (Option String) :=
+      if n == "-" then some none
+      else if nameOK n && !n.contains '_' && a != "*" then some (some n) else none
+    let idle : Option (Option Nat) :=
+      if d == "-" then some none
+      else match canonNat d with
+        | some v => if 1 ≤ v && v ≤ 99 then some (some v) else none
+        | none => none
+    match addr, name, idle with
+    | some a', some n', some d' => some ⟨a', n', d'⟩
+    | _, _, _ => none
+  | _ => none
+
+def showSrv (s : Srv) : String :=
+  s.name ++ "=" ++ "+".intercalate s.listen ++ ":" ++ (match s.idle with | none => "-" | some v => toString v)
+
 def handle : List String → String
+  | ["sopts", sites, opts] =>
+    match parseSitesPorts sites with
+    | some servers =>
+      if servers.length > 6 then "bad-op" else
+      match (if opts == "." then some [] else (opts.splitOn ";").mapM (parseSrvOpt servers)) with
+      | some os =>
+        if os.length > 8 then "bad-op" else
+        match applyServerOptions os servers with
+        | none => "rej"
+        | some res => "|".intercalate ((insertionSort (fun (a b : Srv) => decide (a.name < b.name)) res).map showSrv)
+      | none => "bad-op"
+    | none => "bad-op"
   | ["bind", sites] =>
     match parseBSites sites with
     | some ss => if ss.length ≤ 10 then "|".intercalate ((serversOf "8080" ss).map showBServer) else "bad-op"
